@@ -269,18 +269,18 @@ theorem verdict_props (ex : Exports) (c : Call PV) (o : Obj) (member : Str) (id 
 
 /-- The replies to a Properties call the library serves, in a whole history: what `send_reply` /
 `send_error` make of the library function's outcome. -/
-theorem replies_props (env : Env PV) (ex : Exports) (ops : List (Op PV)) (hwf : HistoryNamed ex ops)
+theorem replies_props (env : Env PV) (ex : Exports) (ops : List (Op PV))
     (k : Nat) (c : Call PV) (b : Nat → Outcome PV) (hk : ops[k]? = some (.call c b))
     (he : c.expectReply = true) (f : Func) (m : Method)
     (hv : verdict (exportsAt ex ops k) c = .run f m) (L : Lib) (out : Props.Out)
     (hb : b f.id = outcomeOf L out) :
     replies (eventsOf k (run env ex ops).2) = replies (fireOutcome env (pendingOf k c m) (outcomeOf L out)) := by
-  rw [eventsOf_run, replies_run env ex ops k (hwf k) c b hk f m hv he, hb]
+  rw [eventsOf_run, replies_run env ex ops k c b hk f m hv he, hb]
   cases out <;> simp [outcomeOf, resultOf, fireOutcome]
 
 /-- ... for a member the library serves: the replies are what the library function's outcome makes
 `send_reply` / `send_error` send under the member's declared return signature. -/
-theorem replies_props_served (env : Env PV) (ex : Exports) (ops : List (Op PV)) (hwf : HistoryNamed ex ops)
+theorem replies_props_served (env : Env PV) (ex : Exports) (ops : List (Op PV))
     (k : Nat) (c : Call PV) (b : Nat → Outcome PV) (hk : ops[k]? = some (.call c b))
     (he : c.expectReply = true) (o : Obj) (ho : exported (exportsAt ex ops k) c.path = some o)
     (member : Str) (id : Nat) (sigIn sigOut : Str) (hs : serves o member id sigIn sigOut = true)
@@ -290,7 +290,7 @@ theorem replies_props_served (env : Env PV) (ex : Exports) (ops : List (Op PV)) 
       replies (eventsOf k (run env ex ops).2) =
         replies (fireOutcome env (pendingOf k c m) (outcomeOf L out)) := by
   obtain ⟨f, m, hv, hid, _, hso⟩ := verdict_props (exportsAt ex ops k) c o member id sigIn sigOut ho hs hi hm hsig
-  exact ⟨m, hso, replies_props env ex ops hwf k c b hk he f m hv L out (by rw [hid]; exact hb)⟩
+  exact ⟨m, hso, replies_props env ex ops k c b hk he f m hv L out (by rw [hid]; exact hb)⟩
 
 theorem lib_ids_distinct : getId ≠ setId ∧ getId ≠ getAllId ∧ setId ≠ getAllId := by decide
 
